@@ -221,7 +221,7 @@ def gen_lineage(rng, T, p, ids, P):
             subs.insert(rng.randint(0, len(subs)), ('ann', e))
     return ('grp', written, hid, label, subs)
 
-DEFAULT_P = dict(loss=0.25, dup=0.3, elide=0.5, subid=0.3, label=0.3, ann=0.25, loft=0.15, unary_trees=0.1, idless_top=0.08, species_split=0.1, dbsplit=0.1, unnamed_root=0.08, notes=0.12, wrap=0.1, latin1=0.1, subid_clash=0.15, late_species=0.12, xref_is_other_id=0.2)
+DEFAULT_P = dict(loss=0.25, dup=0.3, elide=0.5, subid=0.3, label=0.3, ann=0.25, loft=0.15, unary_trees=0.1, idless_top=0.08, species_split=0.1, dbsplit=0.1, unnamed_root=0.08, notes=0.12, wrap=0.1, latin1=0.1, subid_clash=0.15, late_species=0.12, xref_is_other_id=0.2, zero_pad_top=0.1)
 
 def force_written(l):
     return ('grp', True) + tuple(l[2:])
@@ -638,6 +638,12 @@ def make_dataset(rng, T=None, naming=None, nfam=None, P=None, maxleaves=8, int_i
             continue
         fam_no += 1
         topid = str(fam_no + id_offset) if rng.random() < 0.7 else 'HOG:%07d' % fam_no
+        num_ = [t for _, _, t in D.families if t is not None and t.isdigit()]
+        if num_ and rng.random() < P.get('zero_pad_top', 0.0):
+            # family ids that are equal as integers but are different ids: "7" and "07" (ids are strings)
+            cand_ = '0' + rng.choice(num_)
+            if cand_ not in [t for _, _, t in D.families]:
+                topid = cand_
         if fam_no == idless_at:
             topid = None         # one top-level group without id (the schema allows it; it is listed under the key None)
         l = ('grp', True, topid) + tuple(l[3:])
